@@ -325,18 +325,54 @@ func (p *Prog) resolveLocks(r *Roles) {
 		}
 		return nil
 	}
-	r.WriterMu = firstLock(pub)
-	r.DeleteMu = firstLock(del)
+	// writer mutex: the sync.Mutex of Impl that is held wherever the head log is appended to
+	// (decided from the lockset analysis, so it survives moving the Lock call into a helper);
+	// the first-lock heuristic is only a fallback.
+	ls := p.lockset()
+	p.ls = ls
+	cnt := map[*types.Var]int{}
+	nWrites := 0
+	for _, fn := range p.Funcs {
+		if recvNamed(fn) != r.HeadWriter {
+			continue
+		}
+		for _, b := range fn.Blocks {
+			for _, ins := range b.Instrs {
+				if c, ok := ins.(*ssa.Call); ok && calleeName(c.Common()) == "(*"+pkgMessage+".Writer).Write" {
+					nWrites++
+					for _, m := range mus {
+						if ls.at[c][m] == modeW {
+							cnt[m]++
+						}
+					}
+				}
+			}
+		}
+	}
+	for _, m := range mus {
+		if nWrites > 0 && cnt[m] == nWrites {
+			if r.WriterMu == nil || m == firstLock(pub) {
+				r.WriterMu = m
+			}
+		}
+	}
 	if r.WriterMu == nil {
-		r.miss("writer mutex (first sync.Mutex of Impl locked in Publish)")
+		r.WriterMu = firstLock(pub)
 	}
-	if r.DeleteMu == nil {
-		r.miss("delete mutex (first sync.Mutex of Impl locked in Delete)")
+	if r.WriterMu == nil {
+		r.miss("writer mutex (the sync.Mutex of Impl held at every append to the head log)")
 	}
-	if r.WriterMu != nil && r.WriterMu == r.DeleteMu {
-		r.miss("writer and delete mutex are the same field")
+	// delete mutex: the other sync.Mutex of Impl (if there is exactly one other)
+	for _, m := range mus {
+		if m != r.WriterMu {
+			if r.DeleteMu != nil {
+				r.DeleteMu = firstLock(del)
+				break
+			}
+			r.DeleteMu = m
+		}
 	}
-
+	_ = del
 	// SegReader mutexes: the RWMutex held around loads/stores of the messages
 	// field and of the index field.
 	ss := structOf(r.SegReader)
